@@ -339,11 +339,27 @@ class Runner:
         self.conf_pool = {}
         self.scratch_memo = {}        # canonical raw() -> {(label, platform, flavour): outcome}
         self.worlds = {}
+        self.self_miss = {}
 
     def world(self, wid):
         if wid not in self.worlds:
             self.worlds[wid] = World(wid)
         return self.worlds[wid]
+
+    def regex_misses_itself(self, w, label):
+        """Does the real per-component invalidation fail to remove the component's own entry (or raise)?  Observed on the
+        real code with one dummy entry; used only to attribute a stale entry to the named deviation `Hits`."""
+        k = (w.id, label)
+        if k not in self.self_miss:
+            conc = self.FL.FlowIRConcrete(w.render("-" * (2 + 2 * len(w.stage_seq)) + "|P-L-P-L-|0000|N"), "default", {})
+            key = "component:default:stage%s:%s" % w.cid[label]
+            conc._cache[key] = {}
+            try:
+                conc.invalidate_cache_for_component(w.cid[label])
+                self.self_miss[k] = key in conc._cache.keys()
+            except Exception:
+                self.self_miss[k] = True
+        return self.self_miss[k]
 
     def from_scratch(self, live, rawkey, raw, label, p, flavour):
         """The oracle of the property: the same query answered by a brand new FlowIRConcrete built from raw()."""
@@ -386,7 +402,6 @@ class Runner:
             history.append(describe(a))
             raw = live.concrete.raw()
             rawkey = json.dumps(raw, sort_keys=True, default=str)
-            meta_world = any(has_meta(n) for n in w.names)
             tag = "%s %s" % (wid, " ; ".join(history[-6:]))
             # (1) outcome of the call
             if a["act"] == "Query":
@@ -395,7 +410,7 @@ class Runner:
                 fkind, fres = self.from_scratch(live, rawkey, raw, a["c"], a["p"], a["x"])
                 same = (kind == fkind) and (kind != "ok" or res == fres)
                 if not same:
-                    return finding("violation", classify_query(w, a, kind, res, fkind, fres, steps[:i], was_cached),
+                    return finding("violation", classify_query(self, w, a, kind, res, fkind, fres, steps[:i], was_cached),
                                    "query %s returned %s but the configuration computed from scratch from the current description is %s  [history: %s]"
                                    % (describe(a), show(kind, res), show(fkind, fres), tag), i)
                 got = dict(kind=kind, **(project_result(res) if kind == "ok" else {"v": U, "args": U, "np": U}))
@@ -405,7 +420,7 @@ class Runner:
             else:
                 want = "done" if spec["kind"] == "done" else spec["kind"]
                 if kind != want:
-                    if kind == "error:error" and meta_world and a["act"] in COMP_SCOPED:
+                    if kind == "error:error" and a["act"] in COMP_SCOPED and has_meta(w.cid[a["c"]][1]) and self.regex_misses_itself(w, a["c"]):
                         return finding("violation", "unescaped-component-name-in-invalidation-regex",
                                        "%s raised re.error (the component name is used un-escaped in the invalidation regular expression) [%s]"
                                        % (describe(a), tag), i)
@@ -436,7 +451,7 @@ class Runner:
                     if a["act"] == "MutateReturned":
                         key = "private:cache-changed-by-MutateReturned"
                     else:
-                        key = classify_stale(w, a, who, entry, fkind, steps[:i + 1])
+                        key = classify_stale(self, w, a, who, entry, fkind, steps[:i + 1])
                     probe = {"act": "Query", "c": who[0], "p": who[1], "st": -1, "x": "full", "how": U, "hit": True,
                              "ret": dict(kind=fkind, **(project_result(fres) if fkind == "ok" else {"v": U, "args": U, "np": U}))}
                     f = finding("violation", key,
@@ -478,10 +493,9 @@ def show(kind, res):
     return "ok[v=%s args=%s np=%s]" % (p["v"], res.get("command", {}).get("arguments"), res.get("resourceRequest", {}).get("numberProcesses", U))
 
 
-def classify_stale(w, a, who, entry, fkind, steps):
+def classify_stale(runner, w, a, who, entry, fkind, steps):
     """Key = class of the history that leaves a stale entry behind."""
-    name = w.cid[who[0]][1]
-    if a["act"] in COMP_SCOPED and has_meta(w.cid[a["c"]][1]) and a["c"] == who[0]:
+    if a["act"] in COMP_SCOPED and a["c"] == who[0] and has_meta(w.cid[a["c"]][1]) and runner.regex_misses_itself(w, a["c"]):
         return "unescaped-component-name-in-invalidation-regex"
     if fkind == "ConvertError" and any(s["a"]["act"] == "Query" and s["a"]["x"] == "lenient" for s in steps):
         return "lenient-query-result-cached-for-strict-queries"
@@ -490,7 +504,7 @@ def classify_stale(w, a, who, entry, fkind, steps):
                                           ":other-component" if a.get("c", U) not in (U, who[0]) else "")
 
 
-def classify_query(w, a, kind, res, fkind, fres, before, was_cached):
+def classify_query(runner, w, a, kind, res, fkind, fres, before, was_cached):
     if was_cached:
         lenient_before = any(s["a"]["act"] == "Query" and s["a"]["x"] == "lenient" and s["a"]["c"] == a["c"] for s in before)
         if fkind == "ConvertError" and lenient_before:
@@ -501,7 +515,7 @@ def classify_query(w, a, kind, res, fkind, fres, before, was_cached):
         for s in reversed(before):
             if s["a"]["act"] not in ("Query", "MutateReturned"):
                 m = s["a"]
-                if m["act"] in COMP_SCOPED and has_meta(w.cid[m["c"]][1]) and m["c"] == a["c"]:
+                if m["act"] in COMP_SCOPED and m["c"] == a["c"] and has_meta(w.cid[m["c"]][1]) and runner.regex_misses_itself(w, m["c"]):
                     return "unescaped-component-name-in-invalidation-regex"
                 return "stale-read-after:%s" % m["act"]
             if s["a"]["act"] == "MutateReturned":
